@@ -303,6 +303,11 @@ RetryBound ==
         /\ (pc[p] = "done" /\ cfg[p].val /\ last[p] \in {"corrupt", "truncated"}) => res[p] = Exc("OSError")
         /\ (pc[p] = "done" /\ fails[p] <= cfg[p].nret /\ last[p] = "ok") => res[p] = Data(cfg[p].d, "good")
 
+\* whatever goes wrong, a call ends with data or with one of the documented error classes (a network error, OSError for a
+\* checksum mismatch / missing data, a parse error of an unverified payload) - never with a programming error
+ProgrammingErrors == {"AttributeError", "TypeError", "NameError", "UnboundLocalError", "KeyError", "IndexError", "AssertionError"}
+ErrorClassOK == \A p \in All : res[p][1] = "exc" => res[p][2] \notin ProgrammingErrors
+
 \* what a call returns for d is data of d: it cannot depend on loads of another dataset
 NoCrossTalk == \A p \in All : res[p][1] = "data" => res[p][2] = cfg[p].d
 DistinctSlots == \A d1, d2 \in Datasets : d1 # d2 => SlotOf[d1] # SlotOf[d2] /\ UrlOf[d1] # UrlOf[d2]
